@@ -80,7 +80,9 @@ def build(rng, facts, name):
         b.emit("kforeach k %d" % n, lambda a, env, impl: None if a == "calls=%d" % min(n, 0 if impl[ji] == "items=" else impl[ji].count(",") + 1) else "iteration did not stop as soon as asked: %s" % a)
         signs = set((x > 0) - (x < 0) for x, _ in order_stats(snap, Fraction(0)))
         def ssum(a, env):
-            xs = order_stats(snap, env.minidx("k")); true = sum(x * w for x, w in xs); al = env.alpha("k")
+            xs = order_stats(snap, env.minidx("k")); al = env.alpha("k")
+            if exact: xs = [(Fraction(v), w) for v, w in snap]          # the exact variant sums the true values (sub-minimum magnitudes included)
+            true = sum(x * w for x, w in xs)
             got = Fraction(h2f(a[1:]))
             if collapsing: return None
             if len(set((x > 0) - (x < 0) for x, _ in xs if x != 0)) <= 1:
